@@ -70,8 +70,9 @@ def run_native(scenarios, test='verif_replay', release=False, timeout=300):
             pass
     out = {}
     for line in p.stdout.splitlines():
-        if line.startswith('VERIF-RESULT '):
-            _, n, js = line.split(' ', 2)
+        k = line.find('VERIF-RESULT ')
+        if k != -1:
+            _, n, js = line[k:].split(' ', 2)
             out[int(n)] = json.loads(js)
     if len(out) != len(scenarios):
         raise RuntimeError('native replay produced %d results for %d scenarios: rc=%d\n%s\n%s' % (
